@@ -35,7 +35,35 @@ def c19_a(ctx: Ctx):
     out = []
     tries = [n for n in f.node.body if isinstance(n, ast.Try)]
     if not tries:
-        return [ctx.inc(R, f, f.node, "init_project has no try")]
+        # guard-clause spelling: "no project here yet" is decided by a test of the configuration file instead of the LookupError of get_project(search=False)
+        cfg = ctx.cfg(f)
+        writes = []
+        for n in cfg.stmt_nodes():
+            if n.kind != "stmt":
+                continue
+            for c in walk_no_nested(n.ast):
+                if isinstance(c, ast.Call):
+                    e = common.ext_name(ctx, f, c) or ""
+                    internal_mut = any(x.kind in common.MUTATING_KINDS for t in common.targets_of_funcs(ctx, f, c) if not t.qual.endswith(("get_project", "Project.__init__"))
+                                       for x in ctx.effects.transitive([t])[0])
+                    if e in ("os.makedirs", "os.mkdir", "os.replace", "os.rename") or internal_mut or (isinstance(c.func, ast.Attribute) and c.func.attr == "write" and "onfig" in canon(c.func.value)):
+                        writes.append((n, c))
+        checks = {n.id for n in cfg.stmt_nodes() if n.kind == "stmt" and any(isinstance(c, ast.Call) and any(t.qual.endswith(":_raise_if_older_schema") for t in common.targets_of_funcs(ctx, f, c))
+                                                                             for c in walk_no_nested(n.ast))}
+        if not writes:
+            return [ctx.inc(R, f, f.node, "init_project has no try and no recognisable write")]
+        for n, c in writes:
+            facts = common.expand_facts(ctx, f, common.facts_at(ctx, f, c, "n"))
+            absent = any((not pol) and ("os.path.isfile(" in t or "os.path.exists(" in t) and "onfig" in t for (t, pol) in facts)
+            kk = IP + "|write:" + canon(c)[:40]
+            if not absent:
+                out.append(ctx.viol(R, f, c, f"{canon(c)[:50]} runs for existing projects too (not under 'no configuration file here'): init_project is not idempotent", construct=kk))
+            elif cfg.must_pass_before(n.id, checks, kinds="n") is not None or not checks:
+                out.append(ctx.viol(R, f, c, f"{canon(c)[:50]} can run before the legacy-schema check (_raise_if_older_schema): a refused init_project on a project with an older schema has already "
+                                    "modified it (e.g. left an empty .signac/ behind, on which a later migration fails half-way)", construct=kk))
+            else:
+                out.append(ctx.ok(R, f, c, "written only when no configuration file exists here, after the legacy-schema check", construct=kk))
+        return out
     tr = tries[0]
     hs = [h for h in tr.handlers if "LookupError" in canon(h.type or ast.Constant(value=""))]
     if not hs:
@@ -396,6 +424,23 @@ def c19_c(ctx: Ctx):
     ppath = pp[0] if pp else "path"
     exs = [c for c in body_nodes(gpf) if isinstance(c, ast.Call) and common.ext_name(ctx, gpf, c) in ("os.path.exists", "os.path.isdir", "os.path.lexists") and c.args]
     ke = GP + "|exists-as-given"
+    # a path that does not exist is refused before anything is searched: the upward walk is lexical and would happily answer for a missing directory below a project
+    gcfg = ctx.cfg(gpf)
+    guards = {n.id for n in gcfg.stmt_nodes() if n.kind == "test" and isinstance(n.ast, ast.If) and any(isinstance(c, ast.Call) and common.ext_name(ctx, gpf, c) in ("os.path.exists", "os.path.isdir", "os.path.lexists")
+                                                                                                    for c in ast.walk(n.ast.test))
+              and any(isinstance(x, ast.Raise) for st in n.ast.body + n.ast.orelse for x in ast.walk(st))}
+    locs = [c for c in body_nodes(gpf) if isinstance(c, ast.Call) and LOC in common.targets_of(ctx, gpf, c)]
+    kx = GP + "|exists-before-search"
+    for c in locs:
+        bad = None
+        for nid in ctx.node_ids(gpf, c):
+            bad = bad or gcfg.must_pass_before(nid, guards, kinds="n")
+        if guards and bad is None:
+            out.append(ctx.ok(R, gpf, c, "the query path is tested for existence (and refused with LookupError) before the upward search starts", construct=kx))
+        else:
+            out.append(ctx.viol(R, gpf, c, "the upward search can start without the query path having been tested for existence: the walk is lexical, so a path that does not exist (a typo, a "
+                                "removed directory) below an initialised project resolves to that project instead of raising LookupError", construct=kx,
+                                witness=gcfg.describe_path(bad) if bad else None))
     if not exs:
         out.append(ctx.inc(R, gpf, gpf.node, "get_project: no existence test of the query path", construct=ke))
     for c in exs:
